@@ -401,7 +401,13 @@ class Run(object):
         self.q_len(op)
         if do_iter:
             for kind in ITER_KINDS:
-                self.judge_iteration(kind, bounded(self.open_iter(kind), len(self.model)), op)
+                got = bounded(self.open_iter(kind), len(self.model))
+                self.judge_iteration(kind, got, op)
+                # a consumer may do what it likes with the key lists it was handed
+                for item in got:
+                    k = item[0] if kind in ("items", "iter") and isinstance(item, tuple) and item else item
+                    if kind != "values" and isinstance(k, list):
+                        k.append("consumer-owned")
         self.stats.state(state_text(self.model), nontrivial=bool(self.model))
 
     # -- one event ----------------------------------------------------------------
@@ -444,7 +450,12 @@ class Run(object):
             if any(k != key and key[: len(k)] == k for k in model):
                 stats.probe("key_extends_existing")
             stats.probe(ev["form"] + "_form")
-            self.trie[make_key(key, ev["form"])] = value
+            passed = make_key(key, ev["form"])
+            self.trie[passed] = value
+            if isinstance(passed, list):
+                # the key object stays the caller's: reusing or changing it after
+                # the call must not reach into the container
+                passed[:] = ["caller", "reuses", "its", "list"]
             model[key] = value
             stats.event("%s|set|%s|%s|%s" % (ev.get("c"), canon(ev["key"]), ev["form"], canon(ev["val"])))
             stats.transition(before + "|set|" + canon(ev["key"]) + canon(ev["val"]))
